@@ -533,6 +533,9 @@ func (tr *FnCtx) monitorVars(args []*Val) map[string]*Val {
 // again, constrained only by the monitor invariant and the declared rely conditions.
 func (tr *FnCtx) havocShared(st *State) {
 	prev := st.clone()
+	tr.interfered = true
+	unframed := st.Unframed
+	defer func() { st.Unframed = unframed }()
 	keep := map[string]string{}
 	for k, sort := range tr.comps {
 		if strings.HasPrefix(k, "L.") || strings.HasPrefix(k, "$") {
@@ -551,6 +554,36 @@ func (tr *FnCtx) havocShared(st *State) {
 	na := tr.havocComp(st, compAlloc)
 	tr.assume("(>= " + na + " " + a0 + ")")
 	tr.use("interference: captured variables and unpublished objects of a goroutine are not written by other goroutines")
+}
+
+func (tr *FnCtx) hasRelies() bool {
+	for _, m := range tr.W.C.Relies {
+		if m.Pkg == tr.Pkg.Path() {
+			return true
+		}
+	}
+	return false
+}
+
+// interference: other critical sections run while this goroutine does not hold the lock; afterwards only the
+// rely conditions (relative to the state before) are known about shared state. The receiver variable of the rely
+// clauses is taken from the callee's receiver when the contract names it r.
+func (tr *FnCtx) interference(st *State, vars map[string]*Val) {
+	prev := st.clone()
+	tr.havocShared(st)
+	rv := map[string]*Val{}
+	if v, ok := vars["r"]; ok {
+		rv["r"] = v
+	} else {
+		return
+	}
+	for _, m := range tr.W.C.Relies {
+		if m.Pkg != tr.Pkg.Path() {
+			continue
+		}
+		env := &Env{tr: tr, vars: rv, st: st, old: prev, pkg: tr.Pkg, allocOld: tr.cur(prev, compAlloc), assuming: true}
+		tr.assume(tr.evalClause(env, m.Cl))
+	}
 }
 
 func (tr *FnCtx) monitorEnter(st *State, args []*Val) {
